@@ -164,6 +164,235 @@ theorem rejected_changes_nothing (s : State) (tid a : Nat) (amt : Coins) :
     ((withdrawOp s tid a amt).2 ≠ Err.ok → (withdrawOp s tid a amt).1 = s) :=
   ⟨deposit_err_state s tid a amt, withdraw_err_state s tid a amt⟩
 
+
+/-! ## whole histories -/
+
+/-- one operation of a history (every message, accepted or rejected) -/
+inductive Op
+  | create (creator : Nat) (initial : Coins)
+  | deposit (tid a : Nat) (amt : Coins)
+  | withdraw (tid a : Nat) (amt : Coins)
+  | activate (tid sender : Nat)
+  | deactivate (tid sender : Nat)
+
+def apply (s : State) : Op → State
+  | .create c i => (createOp s c i).1
+  | .deposit t a m => (depositOp s t a m).1
+  | .withdraw t a m => (withdrawOp s t a m).1
+  | .activate t x => (activateOp s t x).1
+  | .deactivate t x => (deactivateOp s t x).1
+
+/-- the accounts that move coins are among the accounts in play -/
+def OpOk (accts : List Nat) : Op → Prop
+  | .create c _ => c ∈ accts
+  | .deposit _ a _ => a ∈ accts
+  | .withdraw _ a _ => a ∈ accts
+  | _ => True
+
+/-- the history invariant: every tunnel's total is the sum of its depositors' records, and the module account holds
+    exactly the sum of all tunnels' totals (this model has no packet fees: C08 adds them on top) -/
+structure DInv (s : State) : Prop where
+  total : TotalEq s
+  backed : ∀ d ∈ s.denoms, s.moduleBal d = ((List.range (s.count + 1)).map (fun i => tot s i d)).sum
+  beyond : ∀ i, s.count < i → s.tunnels i = none ∧ ∀ a, s.deposits i a = none
+  nodup : s.accts.Nodup
+
+theorem tot_le_count (s : State) (h : DInv s) (tid : Nat) (ht : (s.tunnels tid).isSome) : tid ∈ List.range (s.count + 1) := by
+  rw [List.mem_range]
+  cases Nat.lt_or_ge s.count tid with
+  | inl hlt => rw [(h.beyond tid hlt).1] at ht; cases ht
+  | inr hge => omega
+
+theorem deposit_dinv (s : State) (tid a : Nat) (amt : Coins) (h : DInv s) (ha : a ∈ s.accts) :
+    DInv (depositOp s tid a amt).1 ∧ (depositOp s tid a amt).1.accts = s.accts ∧ (depositOp s tid a amt).1.denoms = s.denoms := by
+  by_cases hok : (depositOp s tid a amt).2 = Err.ok
+  · obtain ⟨ht, _, e1, e2, _, e4, e5, _, _, _, e11, _, e13, e14, e15⟩ := deposit_effect s tid a amt hok
+    obtain ⟨t1, _, _, _⟩ := deposit_preserves_total s tid a amt h.nodup ha h.total hok
+    refine ⟨⟨t1, ?_, ?_, by rw [e14]; exact h.nodup⟩, e14, e13⟩
+    · intro d hd
+      rw [e13] at hd
+      rw [e5 d, e11, h.backed d hd]
+      exact (sum_map_add_at (List.range (s.count + 1)) (fun i => tot s i d) _ tid (amt d) List.nodup_range
+        (tot_le_count s h tid ht) (fun b hb => e2 b d hb) (e1 d)).symm
+    · intro i hi
+      rw [e11] at hi
+      obtain ⟨b1, b2⟩ := h.beyond i hi
+      have hne : i ≠ tid := by intro e; subst e; rw [b1] at ht; cases ht
+      refine ⟨?_, fun b => ?_⟩
+      · have := e15 i; rw [b1] at this
+        cases hti : (depositOp s tid a amt).1.tunnels i with
+        | none => rfl
+        | some t => rw [hti] at this; cases this
+      · have := e4 i b
+        -- the record itself: only (tid, a) is written
+        unfold depositOp at hok ⊢
+        cases hts : s.tunnels tid with
+        | none => simp [hts] at hok
+        | some t =>
+          simp only [hts] at hok ⊢
+          split
+          · exact b2 b
+          · split
+            · exact b2 b
+            · simp only [hne, false_and, if_false]; exact b2 b
+  · rw [deposit_err_state s tid a amt hok]; exact ⟨h, rfl, rfl⟩
+
+theorem withdraw_dinv (s : State) (tid a : Nat) (amt : Coins) (h : DInv s) (ha : a ∈ s.accts) :
+    DInv (withdrawOp s tid a amt).1 ∧ (withdrawOp s tid a amt).1.accts = s.accts ∧ (withdrawOp s tid a amt).1.denoms = s.denoms := by
+  by_cases hok : (withdrawOp s tid a amt).2 = Err.ok
+  · obtain ⟨hle, _, _, _, t1⟩ := withdraw_bounded_exact s tid a amt h.nodup ha h.total hok
+    obtain ⟨t, dd, ht, hd, _, hst⟩ := withdraw_ok s tid a amt hok
+    obtain ⟨w1, w2, _, _, w5, _, _, w8, _, w10, w11, _, w13, w14⟩ := withdrawn_effect s tid a amt t dd ht hd
+    -- both branches: totals, module balance, count, denoms, accts as in `withdrawn`
+    have key : (∀ i d, tot (withdrawOp s tid a amt).1 i d = tot (withdrawn s tid a amt t dd) i d) ∧
+        (withdrawOp s tid a amt).1.moduleBal = (withdrawn s tid a amt t dd).moduleBal ∧
+        (withdrawOp s tid a amt).1.count = s.count ∧ (withdrawOp s tid a amt).1.denoms = s.denoms ∧
+        (withdrawOp s tid a amt).1.accts = s.accts ∧
+        (∀ i, s.count < i → (withdrawOp s tid a amt).1.tunnels i = none ∧ ∀ b, (withdrawOp s tid a amt).1.deposits i b = none) := by
+      have hne : ∀ i, s.count < i → i ≠ tid := by
+        intro i hi e; subst e; rw [(h.beyond i hi).1] at ht; cases ht
+      have hw : ∀ i, s.count < i → (withdrawn s tid a amt t dd).tunnels i = none ∧ ∀ b, (withdrawn s tid a amt t dd).deposits i b = none := by
+        intro i hi
+        refine ⟨by rw [w13 i (hne i hi)]; exact (h.beyond i hi).1, fun b => ?_⟩
+        simp only [withdrawn, hne i hi, false_and, if_false]; exact (h.beyond i hi).2 b
+      rw [hst]; split
+      · obtain ⟨f1, f2, f3, _, f5, _, f7, f8, _, f10⟩ := deactivateTunnel_frame (withdrawn s tid a amt t dd) tid
+        refine ⟨f1, f3, f5.trans w8, f7.trans w10, f8.trans w11, fun i hi => ⟨?_, fun b => by rw [f2]; exact (hw i hi).2 b⟩⟩
+        rw [f10 i]; simp only [hne i hi, if_false]; exact (hw i hi).1
+      · exact ⟨fun _ _ => rfl, rfl, w8, w10, w11, hw⟩
+    obtain ⟨k1, k2, k3, k4, k5, k6⟩ := key
+    refine ⟨⟨t1, ?_, by rw [k3]; exact k6, by rw [k5]; exact h.nodup⟩, k5, k4⟩
+    intro d hd
+    rw [k4] at hd
+    rw [k2, w5 d, k3, h.backed d hd]
+    have hmem := tot_le_count s h tid (by rw [ht]; rfl)
+    have hb : amt d ≤ tot s tid d := by
+      have := h.total tid d hd
+      have h1 := hle d hd
+      -- the depositor's record is part of the sum
+      have : dep s tid a d ≤ (s.accts.map (fun b => dep s tid b d)).sum := by
+        have hx : ∀ (l : List Nat), a ∈ l → dep s tid a d ≤ (l.map (fun b => dep s tid b d)).sum := by
+          intro l; induction l with
+          | nil => intro hm; cases hm
+          | cons y ys ih =>
+            intro hm
+            simp only [List.map_cons, List.sum_cons]
+            rcases List.mem_cons.mp hm with rfl | hm'
+            · omega
+            · have := ih hm'; omega
+        exact hx s.accts ha
+      omega
+    have hsum := sum_map_sub_at (List.range (s.count + 1)) (fun i => tot s i d) (fun i => tot (withdrawOp s tid a amt).1 i d) tid (amt d)
+      List.nodup_range hmem (fun b hb' => by rw [k1 b d, w2 b d hb']) (by rw [k1 tid d, w1 d]; omega)
+    omega
+  · rw [withdraw_err_state s tid a amt hok]; exact ⟨h, rfl, rfl⟩
+
+/-- changing only the activity flag / index of a tunnel keeps the invariant -/
+theorem dinv_of_same_money (s s' : State) (h : DInv s) (ht : ∀ i d, tot s' i d = tot s i d) (hd : s'.deposits = s.deposits)
+    (hm : s'.moduleBal = s.moduleBal) (hc : s'.count = s.count) (hdn : s'.denoms = s.denoms) (ha : s'.accts = s.accts)
+    (hb : ∀ i, s.count < i → s'.tunnels i = none) : DInv s' := by
+  refine ⟨?_, ?_, ?_, by rw [ha]; exact h.nodup⟩
+  · intro i d hdm
+    rw [hdn] at hdm
+    rw [ht, ha, h.total i d hdm]
+    unfold dep; rw [hd]
+  · intro d hdm
+    rw [hdn] at hdm
+    rw [hm, hc, h.backed d hdm]
+    exact (sum_map_congr _ _ _ (fun b _ => ht b d)).symm
+  · intro i hi
+    rw [hc] at hi
+    exact ⟨hb i hi, fun a => by rw [hd]; exact (h.beyond i hi).2 a⟩
+
+theorem step_dinv (s : State) (op : Op) (h : DInv s) (ok : OpOk s.accts op) :
+    DInv (apply s op) ∧ (apply s op).accts = s.accts := by
+  cases op with
+  | deposit t a m => obtain ⟨q1, q2, _⟩ := deposit_dinv s t a m h ok; exact ⟨q1, q2⟩
+  | withdraw t a m => obtain ⟨q1, q2, _⟩ := withdraw_dinv s t a m h ok; exact ⟨q1, q2⟩
+  | deactivate t x =>
+    simp only [apply, deactivateOp]
+    cases ht : s.tunnels t with
+    | none => exact ⟨h, rfl⟩
+    | some tt =>
+      simp only []
+      split
+      · exact ⟨h, rfl⟩
+      · split
+        · exact ⟨h, rfl⟩
+        · obtain ⟨f1, f2, f3, _, f5, _, f7, f8, _, f10⟩ := deactivateTunnel_frame s t
+          refine ⟨dinv_of_same_money s _ h f1 f2 f3 f5 f7 f8 (fun i hi => ?_), f8⟩
+          rw [f10 i]
+          have : i ≠ t := by intro e; subst e; rw [(h.beyond i hi).1] at ht; cases ht
+          simp only [this, if_false]; exact (h.beyond i hi).1
+  | activate t x =>
+    simp only [apply, activateOp]
+    cases ht : s.tunnels t with
+    | none => exact ⟨h, rfl⟩
+    | some tt =>
+      simp only []
+      split
+      · exact ⟨h, rfl⟩
+      · split
+        · exact ⟨h, rfl⟩
+        · unfold activateTunnel
+          simp only [ht]
+          split
+          · exact ⟨h, rfl⟩
+          · refine ⟨dinv_of_same_money s _ h (fun i d => ?_) rfl rfl rfl rfl rfl (fun i hi => ?_), rfl⟩
+            · unfold tot setTunnel
+              by_cases e : i = t
+              · subst e; simp [ht]
+              · simp [e]
+            · have : i ≠ t := by intro e; subst e; rw [(h.beyond i hi).1] at ht; cases ht
+              simp only [setTunnel, this, if_false]; exact (h.beyond i hi).1
+  | create c init =>
+    simp only [apply, createOp]
+    -- the state with the new, empty, inactive tunnel
+    have h1 : DInv { (setTunnel s (s.count + 1) { creator := c, isActive := false, totalDeposit := fun _ => 0 }) with count := s.count + 1 } := by
+      have htot : ∀ i d, tot { (setTunnel s (s.count + 1) { creator := c, isActive := false, totalDeposit := fun _ => 0 }) with count := s.count + 1 } i d = tot s i d := by
+        intro i d
+        unfold tot setTunnel
+        by_cases e : i = s.count + 1
+        · subst e; simp [(h.beyond (s.count + 1) (Nat.lt_succ_self _)).1]
+        · simp [e]
+      refine ⟨?_, ?_, ?_, h.nodup⟩
+      · intro i d hdm
+        rw [htot]
+        exact h.total i d hdm
+      · intro d hdm
+        show s.moduleBal d = ((List.range (s.count + 1 + 1)).map _).sum
+        rw [List.range_succ, List.map_append, List.sum_append, h.backed d hdm]
+        simp only [List.map_cons, List.map_nil, List.sum_cons, List.sum_nil, htot]
+        have : tot s (s.count + 1) d = 0 := by unfold tot; simp [(h.beyond (s.count + 1) (Nat.lt_succ_self _)).1]
+        rw [this]
+        have := sum_map_congr (List.range (s.count + 1)) (fun i => tot s i d)
+          (fun i => tot { (setTunnel s (s.count + 1) { creator := c, isActive := false, totalDeposit := fun _ => 0 }) with count := s.count + 1 } i d)
+          (fun b _ => htot b d)
+        omega
+      · intro i hi
+        have hi' : s.count + 1 < i := hi
+        have : i ≠ s.count + 1 := by omega
+        refine ⟨?_, (h.beyond i (by omega)).2⟩
+        simp only [setTunnel, this, if_false]; exact (h.beyond i (by omega)).1
+    split
+    · exact ⟨h1, rfl⟩
+    · obtain ⟨q1, q2, _⟩ := deposit_dinv _ (s.count + 1) c init h1 ok
+      cases hd : depositOp { (setTunnel s (s.count + 1) { creator := c, isActive := false, totalDeposit := fun _ => 0 }) with count := s.count + 1 } (s.count + 1) c init with
+      | mk s2 e =>
+        rw [hd] at q1 q2
+        cases e <;> first | exact ⟨q1, q2⟩ | exact ⟨h, rfl⟩
+
+/-- PROPERTY (deposits are fully backed, over EVERY history of creations, deposits, withdrawals, activations and
+    deactivations, accepted or rejected): each tunnel's total equals the sum of its depositors' records and the module
+    account holds exactly the sum of all tunnels' totals -/
+theorem deposits_fully_backed (ops : List Op) (s : State) (h : DInv s) (ok : ∀ op ∈ ops, OpOk s.accts op) :
+    DInv (ops.foldl apply s) := by
+  induction ops generalizing s with
+  | nil => exact h
+  | cons op rest ih =>
+    obtain ⟨q1, q2⟩ := step_dinv s op h (ok op (List.mem_cons_self ..))
+    exact ih _ q1 (fun o ho => by rw [q2]; exact ok o (List.mem_cons_of_mem _ ho))
+
 /-! non-vacuity -/
 def demo : State :=
   { tunnels := fun i => if i = 1 then some ⟨0, true, fun d => if d = "uband" then 120 else 0⟩ else none,
@@ -174,6 +403,15 @@ def demo : State :=
 example : TotalEq demo := by
   intro tid d hd; simp [demo] at hd; subst hd
   by_cases h : tid = 1 <;> simp [tot, dep, demo, h]
+/-- the demo state satisfies the history invariant (premises of `deposits_fully_backed` are satisfiable) -/
+example : DInv demo := by
+  refine ⟨?_, ?_, ?_, by decide⟩
+  · intro tid d hd; simp [demo] at hd; subst hd
+    by_cases h : tid = 1 <;> simp [tot, dep, demo, h]
+  · intro d hd; simp [demo] at hd; subst hd; simp [demo, tot, List.range_succ]
+  · intro i hi
+    have : i ≠ 1 := by simp [demo] at hi; omega
+    simp [demo, this]
 example : (withdrawOp demo 1 1 (fun d => if d = "uband" then 21 else 0)).2 = Err.ok := by decide
 example : ((withdrawOp demo 1 1 (fun d => if d = "uband" then 21 else 0)).1.activeIdx) = [] := by decide
 example : (withdrawOp demo 1 1 (fun d => if d = "uband" then 51 else 0)).2 = Err.insufficientDeposit := by decide
